@@ -18,7 +18,7 @@ ANCHORS = ["occupancy_shape_from_state", "DynamicObstacle.occupancy_at_time", "D
            "TrajectoryPrediction._create_occupancy_set", "Scenario.occupancies_at_time_step",
            "Scenario.obstacle_states_at_time_step", "Scenario.obstacles_by_role_and_type",
            "Scenario.obstacles_by_position_intervals"]
-REQUIRED = ["role.static", "role.dynamic", "role.phantom", "role.environment", "pred.trajectory", "pred.gap", "pred.set",
+REQUIRED = ["requery-after.trajectory.translate_rotate", "requery-after.prediction.shape=", "role.static", "role.dynamic", "role.phantom", "role.environment", "pred.trajectory", "pred.gap", "pred.set",
             "pred.set-interval", "pred.none", "state.PMState", "state.KSState", "state.MBState", "state.CustomState",
             "exact-placement.Rectangle", "exact-placement.Circle", "exact-placement.Polygon",
             "exact-placement.ShapeGroup", "uncertain-position.Rectangle", "uncertain-position.Circle",
@@ -199,6 +199,31 @@ def run(ctx):
                 except Exception as e:  # noqa
                     ctx.violation("C04/DynamicObstacle.state_at_time/raises-%s" % type(e).__name__, "t=%d: %r" % (t, e),
                                   {"desc": desc, "t": t})
+        # query -> transform / re-assign -> query: the occupancy must be the shape placed at the state the obstacle has NOW
+        if role == "dynamic" and desc["kind"] in ("trajectory", "gap"):
+            op = ["trajectory.translate_rotate", "prediction.translate_rotate", "obstacle.translate_rotate",
+                  "prediction.shape=", "prediction.trajectory="][(i // 30 + i // 6) % 5]
+            ctx.feature("requery-after." + op)
+            tr, an = np.array([rng.uniform(-20, 20), rng.uniform(-20, 20)]), rng.choice([0.0, 0.03, 1.0, -2.5])
+            try:
+                if op == "trajectory.translate_rotate":
+                    ob.prediction.trajectory.translate_rotate(tr, an)
+                elif op == "prediction.translate_rotate":
+                    ob.prediction.translate_rotate(tr, an)
+                elif op == "obstacle.translate_rotate":
+                    ob.translate_rotate(tr, an)
+                elif op == "prediction.shape=":
+                    ob.prediction.shape = gen_shape(G, rng, allow_group=False)
+                else:
+                    old_tr = ob.prediction.trajectory
+                    ob.prediction.trajectory = Trajectory(old_tr.initial_time_step, [
+                        s.translate_rotate(tr, an) for s in old_tr.state_list])
+                for t in range(t0, tf + 2):
+                    ctx.evaluation()
+                    ob.occupancy_at_time(t)
+            except Exception as e:  # noqa
+                ctx.violation("C04/requery-after/%s/raises-%s" % (op, type(e).__name__), repr(e)[:200],
+                              {"role": role, "desc": desc})
         # static: same region at all times
         if role == "static":
             try:
